@@ -175,3 +175,29 @@ package blockstore
 //@   requires write_locked [C08]: held(b.mu) == 2
 //@   ensures still_locked [C08]: held(b.mu) == 2
 //@   ensures closed [C04]: b.closed
+
+// Index selection of the read-only blockstore (C07): a supplied index is used as is; otherwise a CARv1 is indexed
+// from the whole backing, a CARv2 from its embedded index iff the header declares one, else from its payload window;
+// lookups then go to the backing (v1) or to the payload window (v2), never to the enclosing CARv2 file.
+
+//@ func NewReadOnly
+//@   let version, verr := call[readVersion#0]
+//@   let v2r, nerr := call[car.NewReader#0]
+//@   let hasidx := call[Header.HasIndex#0]
+//@   let ir, irerr := call[Reader.IndexReader#0]
+//@   let eidx, eerr := call[index.ReadFrom#0]
+//@   let dr, drerr := call[Reader.DataReader#1]
+//@   let win, winerr := call[Reader.DataReader#0]
+//@   call[readVersion#0] assert whole_file [C07]: ref(arg0) == ref(backing) && arg1 == opts
+//@   call[generateIndex#0] assert v1_generated_from_backing [C07]: version == 1 && old(idx) == nil && ref(arg0) == ref(backing) && arg1 == opts
+//@   call[car.NewReader#0] assert v2_reader_over_backing [C07]: version == 2 && ref(arg0) == ref(backing) && arg1 == opts
+//@   call[Header.HasIndex#0] assert header_of_this_file [C07]: old(idx) == nil && arg0 == v2r.Header
+//@   call[Reader.IndexReader#0] assert only_if_declared [C07]: hasidx && ref(arg0) == ref(v2r)
+//@   call[index.ReadFrom#0] assert embedded_index [C07]: hasidx && irerr == nil && ref(arg0) == ref(ir)
+//@   call[generateIndex#1] assert v2_generated_from_payload [C07]: !hasidx && drerr == nil && ref(arg0) == ref(dr) && arg1 == opts
+//@   ensures supplied_index_used [C07]: err == nil && old(idx) != nil ==> ref(result0.idx) == ref(old(idx))
+//@   ensures v1_backing [C07]: err == nil && version == 1 ==> ref(result0.backing) == ref(backing)
+//@   ensures v2_backing_is_payload_window [C07]: err == nil && version == 2 ==> winerr == nil && ref(result0.backing) == ref(win)
+//@   ensures embedded_used [C07]: err == nil && version == 2 && old(idx) == nil && hasidx ==> ref(result0.idx) == ref(eidx)
+//@   ensures versions [C07]: err == nil ==> version == 1 || version == 2
+//@   ensures open [C04]: err == nil ==> !result0.closed
